@@ -553,7 +553,21 @@ def z2rank(mat):
         mat is destroyed upon output!
     Returns:
     r: int - rank of the matrix under Z2 algebra.'''
-    return torch.linalg.matrix_rank(mat.to(torch.float32))
+    mat = torch.remainder(mat.to(torch.int64), 2)
+    nr, nc = mat.shape[0], mat.shape[1]
+    r = 0
+    for i in range(nc): # Gaussian elimination over Z2 (a real-valued rank differs, e.g. on [[1,1,0],[0,1,1],[1,0,1]])
+        if r < nr:
+            pivots = torch.nonzero(mat[r:, i])
+            if pivots.shape[0] > 0:
+                k = r + int(pivots[0, 0])
+                row = mat[k].clone()
+                mat[k] = mat[r]
+                mat[r] = row
+                below = torch.nonzero(mat[r+1:, i]).flatten() + r + 1
+                mat[below] = torch.remainder(mat[below] + row, 2)
+                r += 1
+    return torch.tensor(r, device=mat.device)
 
 
 @torch.jit.script
@@ -582,9 +596,9 @@ def stabilizer_entropy(gs, mask):
     if L == N: # state is pure
         entropy = torch.div(z2rank(acq_mat(gs_across_sub)), 2, rounding_mode='floor')
     else:
-        strict = torch.sum(inside) - torch.sum(across)
-        hidden = z2rank(gs_across_sub) - z2rank(acq_mat(gs_across_sub))
-        entropy = torch.sum(mask) - strict - hidden
+        # independent stabilizers supported inside the subsystem = nullity of the restriction to the complement
+        supported = L - z2rank(gs[:, ~mask2])
+        entropy = torch.sum(mask) - supported
     return entropy
 
 
